@@ -22,7 +22,7 @@ Definition cs_end (sx : list Z) : option (list Z) :=
   match sec_expect SBDF_COLUMNSLICE_SECTIONID sx with
   | Ok (_, s1) => match Va.va_read false None s1 with
                   | Ok (_, s2) => match read_int32 false s2 with
-                                  | Ok (v, s3) => if v <? 0 then None else props_end (Z.to_nat v) s3
+                                  | Ok (v, s3) => if (v <? 0) || (134217727 <? v) then None else props_end (Z.to_nat v) s3
                                   | Err _ => None end
                   | Err _ => None end
   | Err _ => None
@@ -378,7 +378,7 @@ Proof.
         eapply bsE_return. evs. reflexivity. }
       assert (X = hnew) by (rewrite Htl, HT_app in Hh1; apply HT_inj in Hh1; apply app_inv_head in Hh1; exact Hh1). subst X.
       rewrite Ho1 in C3. rewrite HT_len in CS.
-      assert (CE : cs_end s = Some s1) by (unfold cs_end; rewrite E1, E2, E3; replace (v <? 0) with false by lia; exact E5).
+      assert (CE : cs_end s = Some s1) by (unfold cs_end; rewrite E1, E2, E3; replace ((v <? 0) || (134217727 <? v)) with false by lia; exact E5).
       rewrite CE in NBC |- *.
       set (hb := VCell (S (S L) + List.length blocks) 0) in *.
       assert (C1 : cols_sem m1 (S (S L)) (hs ++ [hb]) (blocks ++ hnew)) by (apply cols_snoc; [apply (cols_mono m m1 Hmm1); exact C|exact Hnn|exact CS]).
@@ -700,7 +700,7 @@ Proof.
   destruct (sec_expect SBDF_COLUMNSLICE_SECTIONID sx) as [[u s1]|]; [|discriminate].
   destruct (Va.va_read false None s1) as [[va s2]|]; [|discriminate].
   destruct (read_int32 false s2) as [[v s3]|]; [|discriminate].
-  destruct (v <? 0); [discriminate|]. destruct (INT_MAX / 16 <? v); [discriminate|].
+  destruct (v <? 0); [discriminate|]. change (INT_MAX / 16) with 134217727. destruct (134217727 <? v); [discriminate|]. cbn [orb].
   unfold rrepeat. destruct (rrep s3 v (read_prop false None) s3) as [[ps s4]|] eqn:ER; [|discriminate].
   intros [= _ <-]. apply (props_end_of_model s3 v s3 ps s4 ER).
 Qed.
@@ -716,9 +716,9 @@ Proof.
     intros [= _ <-]. apply (IH s1 rest s2 ER).
 Qed.
 
-Lemma cs_end_intro sx s1 va s2 v s3 s' : sec_expect SBDF_COLUMNSLICE_SECTIONID sx = Ok (tt, s1) -> Va.va_read false None s1 = Ok (va, s2) -> read_int32 false s2 = Ok (v, s3) -> 0 <= v ->
+Lemma cs_end_intro sx s1 va s2 v s3 s' : sec_expect SBDF_COLUMNSLICE_SECTIONID sx = Ok (tt, s1) -> Va.va_read false None s1 = Ok (va, s2) -> read_int32 false s2 = Ok (v, s3) -> 0 <= v <= 134217727 ->
   props_end (Z.to_nat v) s3 = Some s' -> cs_end sx = Some s'.
-Proof. intros E1 E2 E3 Hv E5. unfold cs_end. rewrite E1, E2, E3. replace (v <? 0) with false by lia. exact E5. Qed.
+Proof. intros E1 E2 E3 Hv E5. unfold cs_end. rewrite E1, E2, E3. replace ((v <? 0) || (134217727 <? v)) with false by lia. exact E5. Qed.
 
 (* whenever the source's sbdf_cs_read succeeds - under ANY allocation schedule - and the L1 model's cs_read accepts the stream,
    the two leave the stream at the same place *)
@@ -730,7 +730,7 @@ Proof.
   intros Hs (NB & NBP) EM. destruct (cs_read_full_source rf rp fo po k sx m h Hs NB NBP) as (f0 & F). exists f0. intros f Hf.
   destruct (F f Hf) as (st & fin & C & _ & Out & _). exists st, fin. split; [exact C|]. intros E.
   destruct Out as [(_ & _ & (s1 & va & s2 & v & s3 & s' & A1 & A2 & A3 & A4 & A5 & A6) & _)|(Hn & _)]; [|unfold SBDF_OK in E; lia].
-  pose proof (cs_end_intro sx s1 va s2 v s3 s' A1 A2 A3 (proj1 A4) A5) as CE. rewrite (cs_end_of_model sx c sM EM) in CE. assert (sM = s') by congruence. subst s'. exact A6.
+  pose proof (cs_end_intro sx s1 va s2 v s3 s' A1 A2 A3 A4 A5) as CE. rewrite (cs_end_of_model sx c sM EM) in CE. assert (sM = s') by congruence. subst s'. exact A6.
 Qed.
 
 (* ================================================================== the model's readers on the encodings of well-formed slices (for the corollaries in Props/) *)
@@ -764,7 +764,7 @@ Proof.
   destruct (props_of_encoding (csprops c) rest (fun p Hp => conj (Wp p Hp) (Hnp p Hp))) as (PE & PN). fold PT in PE, PN.
   assert (Hlen : Z.to_nat (zlen (csprops c)) = List.length (csprops c)) by (unfold zlen; lia).
   split.
-  - unfold cs_end. rewrite E0, (EV (enc32 false (zlen (csprops c)) ++ PT)), (E32 PT). replace (zlen (csprops c) <? 0) with false by lia. rewrite Hlen. exact PE.
+  - unfold cs_end. rewrite E0, (EV (enc32 false (zlen (csprops c)) ++ PT)), (E32 PT). replace ((zlen (csprops c) <? 0) || (134217727 <? zlen (csprops c))) with false by lia. rewrite Hlen. exact PE.
   - split.
     + intros s1 E. rewrite E0 in E. assert (Y : s1 = enc_va false (csvals c) ++ enc32 false (zlen (csprops c)) ++ PT) by congruence. subst s1. intros t s2 X. unfold enc_va in X. cbn [app] in X. injection X as X _. destruct Wv; cbn [venc] in *; try discriminate X. apply Hne. reflexivity.
     + intros s1 va s2 v s3 E A R. rewrite E0 in E. assert (Y : s1 = enc_va false (csvals c) ++ enc32 false (zlen (csprops c)) ++ PT) by congruence. subst s1.
@@ -1171,4 +1171,46 @@ Proof.
   destruct (F f Hf) as (st & fin & C & _ & Out & _). exists st, fin. split; [exact C|]. intros E.
   destruct Out as [(_ & _ & (s1 & va & s2 & v & s3 & s' & A1 & A2 & A3 & A4 & A5 & A6) & _)|(Hn & _)]; [|unfold SBDF_OK in E; lia].
   destruct (cs_model_of_end sx s1 va s2 v s3 s' Hs A1 A2 A3 A4 A5) as (c & CM). exists c, s'. split; [exact CM|exact A6].
+Qed.
+
+Lemma cs_model_of_cs_end sx s' : Forall byte sx -> cs_end sx = Some s' -> exists c, Slice.cs_read false None sx = Ok (c, s').
+Proof.
+  intros Hs. unfold cs_end.
+  destruct (sec_expect SBDF_COLUMNSLICE_SECTIONID sx) as [[[] s1]|] eqn:E1; [|discriminate].
+  destruct (Va.va_read false None s1) as [[va s2]|] eqn:E2; [|discriminate].
+  destruct (read_int32 false s2) as [[v s3]|] eqn:E3; [|discriminate].
+  destruct ((v <? 0) || (134217727 <? v)) eqn:Ev; [discriminate|]. intros E5.
+  apply (cs_model_of_end sx s1 va s2 v s3 s' Hs E1 E2 E3 ltac:(lia) E5).
+Qed.
+
+Lemma cols_model_of_colsf_end sub : forall rem i s s', 0 <= i -> Forall byte s -> colsf_end sub rem i s = Some s' -> exists cs, read_cols false None rem (msub sub i) s = Ok (cs, s').
+Proof.
+  induction rem as [|r IH]; intros i s s' Hi Hs E; cbn [read_cols colsf_end] in *; [injection E as <-; eexists; reflexivity|].
+  assert (SEL : (match msub sub i with None => true | Some l => negb (hd 0 l =? 0) end) = sel sub i) by (unfold msub, sel; destruct sub as [[q fl]|]; [rewrite hd_skipn; reflexivity|reflexivity]).
+  assert (NXT : option_map (@tl Z) (msub sub i) = msub sub (i + 1)) by (unfold msub; destruct sub as [[q fl]|]; [cbn [option_map]; rewrite tl_skipn; do 2 f_equal; lia|reflexivity]).
+  rewrite SEL, NXT. unfold rd_bind, rret. destruct (sel sub i).
+  - destruct (cs_end s) as [s1|] eqn:CE; [|discriminate]. destruct (cs_model_of_cs_end s s1 Hs CE) as (c & CM). rewrite CM.
+    destruct (IH (i + 1) s1 s' ltac:(lia) (proj1 (shr_cs_read s c s1 Hs CM)) E) as (cs & R). rewrite R. eexists. reflexivity.
+  - unfold csk_end in E. destruct (cs_skip false s) as [[u s1]|] eqn:EK; [|discriminate].
+    destruct (IH (i + 1) s1 s' ltac:(lia) (proj1 (shr_cs_skip s u s1 Hs EK)) E) as (cs & R). rewrite R. eexists. reflexivity.
+Qed.
+
+(* whatever the allocation schedule and the column subset: if the source's sbdf_ts_read succeeds, the L1 model's ts_read
+   accepts the stream with that subset and ends where the source ended *)
+Theorem ts_read_success_is_the_models rf rp fo po k sx m (h : heap) tmb n sub : Forall byte sx -> 0 <= n <= 715827882 -> cell_get h tmb 1 = Some (VInt n) -> flags_in n sub m ->
+  (forall s1 s2, sec_read sx = Ok (3, s1) -> read_int32 false s1 = Ok (n, s2) -> colsf_nobit sub (Z.to_nat n) 0 s2) ->
+  exists f0, forall f, (f0 <= f)%nat -> exists st fin,
+    callC prog_env f prog_sbdf_ts_read [VPtr rf fo; VCell tmb 0; sv sub; VPtr rp po] m k sx h = OReturn (VInt st) fin /\
+    (st = SBDF_OK -> exists t sM, Slice.ts_read false None n (msub sub 0) sx = Ok (t, sM) /\ lookup strm_var (vars fin) = Some (VBytes sM)).
+Proof.
+  intros Hs Hn Htm Fl NBC. destruct (ts_read_sub_source rf rp fo po k sx m h tmb n sub Hs Hn Htm Fl NBC) as (f0 & F). exists f0. intros f Hf.
+  destruct (F f Hf) as (st & fin & C & _ & _ & Out & _). exists st, fin. split; [exact C|]. intros E.
+  destruct Out as [(_ & _ & (s1 & s2 & s' & A1 & A2 & A3 & A4) & _)|(Hneg & _)]; [|unfold SBDF_OK in E; lia].
+  assert (Hs1 : Forall byte s1).
+  { assert (SE : sec_expect 3 sx = Ok (tt, s1)) by (unfold sec_expect, rd_bind, rret; rewrite A1; reflexivity). exact (proj1 (shr_sec_expect 3 sx tt s1 Hs SE)). }
+  pose proof (proj1 (shr1_read_int32 s1 n s2 Hs1 A2)) as Hs2.
+  destruct (cols_model_of_colsf_end sub (Z.to_nat n) 0 s2 s' ltac:(lia) Hs2 A3) as (cs & R).
+  eexists. exists s'. split; [|exact A4].
+  unfold Slice.ts_read, rd_bind, rfail, rret, ralloc, alloc_ok. rewrite A1. change SBDF_TABLEEND_SECTIONID with 5. change SBDF_TABLESLICE_SECTIONID with 3.
+  change (3 =? 5) with false. change (negb (3 =? 3)) with false. cbv beta iota. rewrite A2. cbv beta iota. replace (n <? 0) with false by lia. rewrite Z.eqb_refl. cbn [negb]. cbv beta iota. rewrite R. reflexivity.
 Qed.
